@@ -251,57 +251,88 @@ def partition_fault_batch(ctx, accepted):
             break
     tasks = []
     for t in bases:
-        for kind in distwork.PART_FAULTS:
-            for site in range(1 if kind == "none" else nsites):
-                tasks.append({"seed": t["seed"], "index": t["index"], "profile": t["profile"], "fault": [kind, site]})
+        faults = [(kind, site) for kind in distwork.PART_FAULTS for site in range(1 if kind == "none" else nsites)]
+        for half in (faults[0::2], faults[1::2]):
+            orders = []
+            for k_i, (kind, site) in enumerate(half):
+                if ctx.thorough or kind == "none":
+                    orders.append(list(distwork.ORDER_MODES))
+                else:
+                    orders.append([distwork.ORDER_MODES[(k_i + site) % 2]])
+            tasks.append({"seed": t["seed"], "index": t["index"], "profile": t["profile"],
+                          "faults": [list(f) for f in half], "orders": orders})
     try:
-        results = distwork.run_pool(distwork.c10_partfault_unit, tasks, deadline_s=900 if ctx.thorough else 300)
+        results = distwork.run_pool(distwork.c10_partfault_multi_unit, tasks, deadline_s=900 if ctx.thorough else 300)
     except distwork.WorkTimeout as e:
         raise common.LeanError(f"C10 partition-fault pool timed out: {e}")
-    live = [(t, r) for t, r in zip(tasks, results) if "P" in r]
     for t, r in zip(tasks, results):
         if r.get("timeout"):
-            raise common.LeanError(f"C10: partition fault {t} timed out inside fakempi")
-    answers = common.driver_query_parallel([f"(dist verifymodel {r['P']} {r['pins']})" for _, r in live])
+            raise common.LeanError(f"C10: partition faults on {t['seed']}/{t['index']}/{t['profile']} timed out inside fakempi")
+    live = [(t, r, e) for t, r in zip(tasks, results) for e in r.get("entries", [])]
+    answers = common.driver_query_parallel([f"(dist verifymodel {e['P']} {e['pins']})" for _, _, e in live])
     kinds = collections.Counter()
     n_dis = 0
-    for (t, r), a in zip(live, answers):
-        kind = r["fault"][0]
-        kinds[kind] += 1
-        prog = {"seed": t["seed"], "index": t["index"], "profile": t["profile"], "partition_fault": r["fault"]}
-        replay = {"program": prog, "spec": r["spec"], "partition_fault": r["fault"], "description": r.get("description"),
-                  "model": a, "ranks": r["ranks"]}
-        root = r["ranks"][0]
-        raised = [x for x in r["ranks"] if x["status"] == "raised"]
+    n_runs = 0
+    n_perm = 0
+
+    def judge(a, ranks, kind):
+        """signature + text when the real outcome is not what the model of verify allows"""
+        root = ranks[0]
+        raised = [x for x in ranks if x["status"] == "raised"]
         if a == "ok accepts":
             if raised:
-                n_dis += 1
-                ctx.violation(f"valid-partition-rejected:verify:{raised[0]['exc']}",
-                              f"verify_distributed_partition rejects a partition its model accepts ({prog}; "
-                              f"{r.get('description')}): {raised[0]['exc']} {raised[0]['text']}", replay)
-        elif a.startswith("ok raises "):
-            classes = a[len("ok raises "):].split()
-            if not raised:
-                n_dis += 1
-                ctx.violation(f"partition-fault-undiagnosed:{kind}",
-                              f"verify_distributed_partition accepts a faulty partition ({prog}; {r.get('description')}); "
-                              f"its model demands one of {classes}", replay)
-            elif root["status"] != "raised" or root["exc"] not in classes:
-                n_dis += 1
-                x = raised[0]
-                ctx.violation(f"partition-fault-misdiagnosed:{kind}:{x['exc']}",
-                              f"{prog}; {r.get('description')}: raised {x['exc']} (root: {root['status']}/{root['exc']}), "
-                              f"the model of verify allows {classes}", replay)
-        else:
+                return (f"valid-partition-rejected:verify:{raised[0]['exc']}",
+                        f"verify_distributed_partition rejects a partition its model accepts: "
+                        f"{raised[0]['exc']} {raised[0]['text']}")
+            return None
+        classes = a[len("ok raises "):].split()
+        if not raised:
+            return (f"partition-fault-undiagnosed:{kind}",
+                    f"verify_distributed_partition accepts a faulty partition; its model demands one of {classes}")
+        if root["status"] != "raised" or root["exc"] not in classes:
+            x = raised[0]
+            return (f"partition-fault-misdiagnosed:{kind}:{x['exc']}",
+                    f"raised {x['exc']} (root: {root['status']}/{root['exc']}), the model of verify allows {classes}")
+        return None
+
+    for (t, r, e), a in zip(live, answers):
+        kind = e["fault"][0]
+        kinds[kind] += 1
+        prog = {"seed": t["seed"], "index": t["index"], "profile": t["profile"], "partition_fault": e["fault"]}
+        if not (a == "ok accepts" or a.startswith("ok raises ")):
             ctx.broken.append(f"driver:verifymodel:{a[:60]}")
-    ctx.note_batch("partition-level-faults", len(live), n_dis, exhaustive=False,
+            continue
+        given = judge(a, e["runs"]["given"], kind)
+        for mode, ranks in e["runs"].items():
+            n_runs += 1
+            n_perm += mode != "given"
+            j = given if mode == "given" else judge(a, ranks, kind)
+            if j is None or (mode != "given" and given is not None and j[0] == given[0]):
+                continue
+            n_dis += 1
+            sig, text = j
+            if mode != "given":
+                sig = "order-dependence:" + sig
+                text = (f"with the entries of every mapping / set of the partition in another order ({mode}; "
+                        f"in the order given the outcome is as the model says): " + text)
+            ctx.violation(sig, f"{prog}; {e.get('description')}: {text}",
+                          {"program": prog, "spec": r["spec"], "partition_fault": e["fault"], "order": mode,
+                           "description": e.get("description"), "model": a, "ranks": ranks})
+    ctx.note_batch("partition-level-faults", n_runs, n_dis, exhaustive=False,
                    nontrivial=sum(v for k, v in kinds.items() if k != "none"),
-                   base_partitions=len(bases), fault_kinds=dict(sorted(kinds.items())),
+                   base_partitions=len(bases), faulted_partitions=len(live), runs_in_permuted_order=n_perm,
+                   fault_kinds=dict(sorted(kinds.items())),
                    how="faults injected into the real partition objects of valid programs (duplicate send: same "
                        "array / another array of equal shape+dtype / other dtype / other part; orphan sends; dropped "
                        "receive / send; retagged send; needed_pids cycle; received name as output; removed output "
-                       "that is read later), then the real verify_distributed_partition on all ranks; expected "
-                       "classes = Lean model `verifyViolated`; the unfaulted partition must be accepted")
+                       "that is read later; cycles of length 1..k through each edge class: a part needing itself / "
+                       "a later part, a part reading an output of a later part / of itself (no cycle), a rank sending to itself with send "
+                       "and receive in one part / later->earlier / earlier->later part, a message answered by its "
+                       "receiver's part), then the real verify_distributed_partition on all ranks, on the partition "
+                       "as built and on copies with the entries of every mapping / set (parts, name_to_output, "
+                       "name_to_recv_node, name_to_send_nodes, output_names, needed_pids, input names) reversed / "
+                       "shuffled; expected classes = Lean model `verifyViolated`, whatever the order; the unfaulted "
+                       "partition must be accepted")
 
 
 def run(ctx: common.Ctx):
